@@ -69,7 +69,7 @@ Definition clear_frame : M unit :=
   s <- get ;;
   let color := if bg s =? cWhite then 0xff else 0x00 in
   cmd 0x24 ;;
-  data_x_times color (WIDTH * HEIGHT).
+  data_x_times color (WIDTH / 8 * HEIGHT).
 
 Definition wait_until_idle : M unit := wait_idle IS_BUSY_LOW.
 
